@@ -219,7 +219,7 @@ class Extractor:
             return [{"n": "prim", "kind": kind, "dir": "w" if name.startswith("write") else "r", "args": args, "id": self.new_id(), "line": line, "node": id(n)}]
         if fid in self.iof and self.depth < 5:
             f = self.fx.fns[fid]
-            root = hirq.body_root(f)
+            root = hirq.layout_root(f)
             if root is None:
                 return []
             params = [p.get("name") for p in f["hir"]["params"]]
@@ -279,7 +279,7 @@ def walk(L):
 
 def extract(fx, iof, fn, opaque=None):
     ex = Extractor(fx, iof, opaque)
-    root = hirq.body_root(fn)
+    root = hirq.layout_root(fn)
     if root is None:
         return None
     items = ex.expr(root, {})
